@@ -45,7 +45,7 @@ func minifySVG(c Case, doc string) ([]byte, error) {
 }
 
 // a smooth command letter that follows the arguments of another curve command
-var reSmoothAfterCurve = regexp.MustCompile(`[CcSsQqTt][^A-Za-df-z]*[SsTt]`)
+var reSmoothAfterCurve = regexp.MustCompile(`[CcSsQqTt][^A-DF-Za-df-z]*[SsTt]`)
 var reD = regexp.MustCompile(`\sd=("[^"]*"|'[^']*')`)
 
 func checkPath(c Case) (changed bool, ncmd int, err error) {
